@@ -24,8 +24,8 @@ import (
 //
 // Uninterpreted parts (assumptions):
 //   * CHECKSIG(sig,key) is an oracle: one Bool per (witness item, key in {maker,taker}) drawn
-//     by vDrawWitness, constrained only by "empty signature => false" and, when the maker and
-//     taker key bytes coincide, by sigM == sigT.  Real consensus additionally *aborts* the
+//     by vDrawOracles, constrained only by "empty signature => false"; when the maker and
+//     taker key bytes coincide vSig uses one column for both.  Real consensus additionally *aborts* the
 //     script for a non-empty signature that is not DER (BIP66); the model lets the script
 //     continue with `false`, i.e. it accepts a superset of the real spends (sound for the
 //     "only these three paths" direction).  Policy rules (NULLFAIL, MINIMALIF, MINIMALDATA,
@@ -212,13 +212,15 @@ type vSpend struct {
 	stack []vElem
 	// ghost: which witness item established which fact (-1: none).  The soundness entries do not
 	// trust these: they re-evaluate the oracles for the recorded items.
-	makerItem int   // CHECKSIG(item, key == maker) returned true
-	takerItem int   // CHECKSIG(item, key == taker) returned true
-	sizedItem int   // SIZE(item) compared equal to the script constant 32
-	hashItem  int   // SHA256(item) compared equal to a script constant
-	csvActive bool  // a CHECKSEQUENCEVERIFY with an enabled operand was executed and passed
-	csvOp     int64 // its operand
-	other     bool  // an oracle outside {maker,taker} x {witness items} was consulted
+	makerItem int    // CHECKSIG(item, key == maker) returned true
+	takerItem int    // CHECKSIG(item, key == taker) returned true
+	sizedItem int    // SIZE(item) compared equal to the script constant 32
+	hashItem  int    // SHA256(item) compared equal to a script constant
+	csvActive bool   // a CHECKSEQUENCEVERIFY with an enabled operand was executed and passed
+	csvOp     int64  // its operand
+	other     bool   // an oracle outside {maker,taker} x {witness items} was consulted
+	sigUsed   []int  // witness items consumed as the signature operand of some CHECKSIG
+	wrongSha  []byte // native grid runs only: the "some other hash" value (instead of a draw)
 	shaIn     [][]byte
 	shaOut    [][]byte
 }
@@ -412,6 +414,7 @@ func (sp *vSpend) sigOK(sig, key vElem) bool {
 	if sig.wit < 0 {
 		return sp.fresh() // a signature taken from the script or a hash value: unconstrained
 	}
+	sp.sigUsed = append(sp.sigUsed, sig.wit)
 	r, other := vSig(sp.w, sig.wit, key.data, sp.maker, sp.taker)
 	if other {
 		return sp.fresh() // a key that is neither maker nor taker: unconstrained
@@ -437,6 +440,8 @@ func (sp *vSpend) sha(e vElem) vElem {
 	var out []byte
 	if sp.w.hashOK[e.wit] {
 		out = sp.hash
+	} else if sp.wrongSha != nil {
+		out = sp.wrongSha
 	} else {
 		out = zzverif.Bytes("sha_out", 32)
 		zzverif.Assume(!bytes.Equal(out, sp.hash))
